@@ -44,7 +44,8 @@ Values(f) ==
       [] f = "frame_type" -> IF Rich THEN {"absent", "all_frame", "no_frame", "bogus"} ELSE IF Tiny THEN {"absent"}
                              ELSE {"absent", "no_frame"}
       [] f = "watches" -> IF Tiny THEN {1} ELSE {0, 1}
-      [] f = "metrics" -> IF Tiny THEN {0, 1} ELSE {0, 1, 2}
+      [] f = "metrics" -> IF Tiny THEN {0, 1} ELSE {0, 1, 2, 7}   \* 7: one definition of a metric TYPE this agent does
+                                                                   \* not know (the wire enum is open): uninterpretable
       [] f = "loc" -> {"L1", "L2"}             \* which of two source locations the tracepoint is placed on
 
 VARIABLES row,     \* the tracepoint being built: field -> value (partial)
@@ -79,13 +80,14 @@ LocKind(r) ==
     ELSE IF EffStage(r) \in MethodStages THEN (IF r.method_name = "present" THEN "method" ELSE "method_unnamed")
     ELSE "uninterpretable"
 
-Interpretable(r) == LocKind(r) \in {"line", "method"}
+KnownMetrics(r) == r.metrics \in {0, 1, 2}
+Interpretable(r) == LocKind(r) \in {"line", "method"} /\ KnownMetrics(r)
 
 Collects(r) == r.snapshot # "no_collect"
 Effects(r) ==
     (IF Collects(r) THEN {"snapshot"} ELSE {})
       \cup (IF r.log_msg = "present" THEN {"log"} ELSE {})
-      \cup (IF r.metrics >= 1 THEN {"metric1"} ELSE {}) \cup (IF r.metrics >= 2 THEN {"metric2"} ELSE {})
+      \cup (IF r.metrics \in {1, 2} THEN {"metric1"} ELSE {}) \cup (IF r.metrics = 2 THEN {"metric2"} ELSE {})
       \cup (IF r.span # "absent" THEN {"span"} ELSE {})
 
 Deferred(r) == Collects(r) /\ r.stage \in {"line_capture", "method_capture"}
@@ -124,7 +126,8 @@ Complete(r) == DOMAIN r = {Fields[i] : i \in 1..Len(Fields)}
 SnapshotUnlessSwitchedOff == \A i \in 1..Len(resp) : ("snapshot" \in Effects(resp[i])) <=> (resp[i].snapshot # "no_collect")
 LogWhenGiven == \A i \in 1..Len(resp) : ("log" \in Effects(resp[i])) <=> (resp[i].log_msg = "present")
 OneMetricPerDefinition == \A i \in 1..Len(resp) :
-                              Cardinality(Effects(resp[i]) \cap {"metric1", "metric2"}) = resp[i].metrics
+                              Cardinality(Effects(resp[i]) \cap {"metric1", "metric2"})
+                                  = (IF KnownMetrics(resp[i]) THEN resp[i].metrics ELSE 0)
 SpanWhenRequested == \A i \in 1..Len(resp) : ("span" \in Effects(resp[i])) <=> (resp[i].span # "absent")
 PlacedByStage == \A i \in 1..Len(resp) :
                      /\ (resp[i].stage \in LineStages => LocKind(resp[i]) = "line")
